@@ -11,7 +11,8 @@
 (***************************************************************************)
 EXTENDS Forest, Json
 
-CONSTANTS MaxN, MaxAdds, MaxStack, MaxUnd, MaxFr, MaxRst, Acts
+CONSTANTS MaxN, MaxAdds, MaxStack, MaxUnd, MaxFr, MaxRst, Acts,
+          TrackLast   \* TRUE: the kind of the last action is part of the state (see Step)
 
 VARIABLES n, live, cached, stack, marks, hist
 
@@ -58,13 +59,20 @@ Obs(x, lv, C) ==
         pf     |-> JProof(CanonProofIn(x, nds, cs)) ]
 
 Init == /\ n = 0 /\ live = {} /\ cached = {} /\ stack = <<>>
-        /\ marks = [und |-> 0, fr |-> 0, rst |-> 0] /\ hist = <<>>
+        /\ marks = [und |-> 0, fr |-> 0, rst |-> 0, last |-> "-"] /\ hist = <<>>
 
 Push(rec) == IF MaxStack = 0 THEN <<>>
              ELSE SubSeq(<<rec>> \o stack, 1, IF Len(stack) + 1 > MaxStack THEN MaxStack ELSE Len(stack) + 1)
 
+\* Two histories that lead to the same abstract state may leave an
+\* implementation in different hidden states (a stale flag, a node kept too
+\* long).  Breadth-first search keeps one witness history per state; with
+\* TrackLast the kind of the last action is part of the state, so every
+\* abstract state gets one witness per kind of action that can lead to it,
+\* and the behaviour is continued from each of them.
 Step(step, n2, lv2, c2, stk2, m2) ==
-  /\ n' = n2 /\ live' = lv2 /\ cached' = c2 /\ stack' = stk2 /\ marks' = m2
+  /\ n' = n2 /\ live' = lv2 /\ cached' = c2 /\ stack' = stk2
+  /\ marks' = [m2 EXCEPT !.last = IF TrackLast THEN step.a ELSE "-"]
   /\ hist' = Append(hist, step)
   /\ Emit(step, Obs(n2, lv2, c2))
 
